@@ -342,13 +342,16 @@ def rule_table(chk, w):
                                 enc_t[vnames[v]] = o[1] if o[0] == "const" else defuse.show(o)
         good = bool(dec_t) and all(dec_t.get(n) == (enc_t.get(n), enc_t.get(n)) for n in vnames if n != "Unknown") \
             and dec_t.get("Unknown") is not None and "Unknown" in str(enc_t.get("Unknown", "")) and \
-            dec_t["Unknown"][0] == max(v for v in enc_t.values() if isinstance(v, int)) + 1
+            dec_t["Unknown"][0] == max(v for v in enc_t.values() if isinstance(v, int)) + 1 and \
+            dec_t["Unknown"][1] == (w.consts.get("zcash_encoding::MAX_COMPACT_SIZE") or {}).get("v")
         if good:
             chk.ok("TABLE", "Typecode::try_from(u32) and u32::from(Typecode) are inverse (%s; Unknown for %s)"
                    % ({n: enc_t[n] for n in vnames if n != "Unknown"}, dec_t["Unknown"]), sample=True)
         else:
-            chk.fail("TABLE", "typecode", "typecode tables disagree: u32 -> Typecode %s, Typecode -> u32 %s"
-                     % (dec_t, enc_t), tf[0].span.loc())
+            chk.fail("TABLE", "typecode", "typecode tables disagree: u32 -> Typecode %s, Typecode -> u32 %s; unknown "
+                     "typecodes must be accepted from the first unassigned value up to MAX_COMPACT_SIZE = %s, the "
+                     "largest the container codec can carry" % (dec_t, enc_t, (w.consts.get("zcash_encoding::MAX_COMPACT_SIZE")
+                                                                      or {}).get("v")), tf[0].span.loc())
     else:
         chk.fail("TABLE", "typecode/missing", "Typecode conversions not found")
 
@@ -529,6 +532,109 @@ def rule_net(chk, w):
             chk.fail("NET", key, "convert_if_network accepts AddressKind::%s under a relaxed network test (%s) "
                      "although its encoding differs between testnet and regtest" % (kind, defuse.show(cond)),
                      ci[0].span.loc())
+
+
+def rule_kind(chk, w):
+    """Typed conversions keep the transparent receiver's KIND: in zcash_keys::address a match arm for a
+    P2PKH item builds / reads only PublicKeyHash addresses and an arm for a P2SH item only ScriptHash
+    ones (an arm shared by both kinds must not be kind-specific) — otherwise a P2SH receiver re-encodes
+    as P2PKH."""
+    KTAGS = [("K", re.compile(r"P2pkh|P2PKH|PublicKeyHash|p2pkh")), ("H", re.compile(r"P2sh|P2SH|ScriptHash|p2sh"))]
+    KN = {"K": "P2PKH / PublicKeyHash", "H": "P2SH / ScriptHash"}
+
+    def ktag(txt):
+        return {t for t, rx in KTAGS if txt and rx.search(txt)}
+    n = 0
+    for f in sorted(w.fns.values(), key=lambda f: f.p):
+        if f.crate.name != "zcash_keys" or "::tests::" in f.p or "::testing" in f.p or \
+                not re.search(r"zcash_keys::address::|zcash_keys::encoding::", f.p):
+            continue
+        b = f.body
+        du = None
+        for bi, blk in enumerate(b.blocks):
+            t = blk.term
+            if blk.cleanup or t.kind != "switch" or len(t.arms) < 2:
+                continue
+            du = du or defuse.DefUse(b)
+            o = du.origin(t.discr)
+            if o[0] != "disc":
+                continue
+            d = t.discr
+            dd = du.single(d.place.local) if d.kind in ("copy", "move") and not d.place.proj else None
+            ty = None
+            if dd and dd[0] == "stmt" and dd[2].rv.kind == "disc":
+                pl = dd[2].rv.place
+                ty = b.local_ty(pl.local) if not [p for p in pl.proj if p != "*"] else None
+            ty = re.sub(r"^(&('\w+ )?(mut )?)+", "", ty or "")
+            adt = w.adts.get(ty)
+            if adt is None and ty:
+                last = re.sub(r"<.*$", "", ty).rsplit("::", 1)[-1]
+                cands = [a for k_, a in w.adts.items() if k_.rsplit("::", 1)[-1] == last and a.get("kind") == "Enum" and
+                         k_.split("::")[0] == ty.split("::")[0]]
+                adt = cands[0] if len(cands) == 1 else None
+            if not adt or adt.get("kind") != "Enum":
+                continue
+            names = [v["name"] for v in adt["variants"]]
+            if len([x for x in names if len(ktag(x)) == 1]) < 2:
+                continue
+
+            def region_of(tb):
+                seen, work = set(), [tb]
+                while work:
+                    x = work.pop()
+                    if x in seen or x == bi:
+                        continue
+                    seen.add(x)
+                    work.extend(b.blocks[x].term.succs())
+                return seen
+            reach = {v: region_of(tb) for v, tb in t.arms}
+            tgt = dict(t.arms)
+            for v, tb in t.arms:
+                if not isinstance(v, int) or v >= len(names) or len(ktag(names[v])) != 1:
+                    continue
+                tag = next(iter(ktag(names[v])))
+                # what only kind-tagged arms reach: the arm's own code plus code it shares with the other
+                # kind's arm (which therefore has to be kind-neutral); not the continuation common to all arms
+                neutral = [r for u, r in reach.items()
+                           if not (isinstance(u, int) and u < len(names) and len(ktag(names[u])) == 1)]
+                if t.otherwise is not None:
+                    neutral.append(region_of(t.otherwise))
+                region = reach[v] - set().union(*neutral) if neutral else reach[v] - set.intersection(*reach.values())
+                bad, n_t = [], 0
+                for rb in sorted(region):
+                    rblk = b.blocks[rb]
+                    if rblk.cleanup:
+                        continue
+                    for s_ in rblk.stmts:
+                        if s_.kind == "=" and s_.rv.kind == "agg" and s_.rv.agg[0] == "adt":
+                            at = ktag(s_.rv.agg[2])
+                            if at:
+                                n_t += 1
+                                if at != {tag}:
+                                    bad.append("%s::%s at %s" % (s_.rv.agg[1].rsplit("::", 1)[-1], s_.rv.agg[2], s_.span.loc()))
+                    tt = rblk.term
+                    if tt.kind == "call" and tt.callee.indirect is None:
+                        ct = ktag(tt.callee.target_p().rsplit("::", 1)[-1])
+                        for a in tt.args:
+                            oo = du.origin(a)
+                            if oo[0] == "fn" and oo[1]:
+                                ct |= ktag(oo[1].rsplit("::", 2)[-1])
+                        if ct:
+                            n_t += 1
+                            if ct != {tag}:
+                                bad.append("%s at %s" % (tt.callee.target_p().rsplit("::", 1)[-1], tt.span.loc()))
+                if n_t == 0:
+                    continue
+                n += 1
+                where = f.p.replace("zcash_keys::", "")
+                if bad:
+                    chk.fail("KIND", "%s/%s::%s" % (where, ty.rsplit("::", 1)[-1], names[v]), "the arm that handles %s::%s "
+                             "(%s) builds or uses %s: the receiver's kind changes in the conversion"
+                             % (ty.rsplit("::", 1)[-1], names[v], KN[tag], "; ".join(bad)), t.span.loc())
+                else:
+                    chk.ok("KIND", "%s: the %s::%s arm stays %s" % (where, ty.rsplit("::", 1)[-1], names[v], KN[tag]),
+                           sample=(n == 1))
+    return n
 
 
 def rule_zip316(chk, w):
@@ -964,13 +1070,15 @@ def main(tier):
                    "reviewed panic-site arguments listed in rules/c10.py"]
     chk.rule("TABLE", "decoder tables are the inverse of the encoder tables", floor=30)
     chk.rule("NET", "address values keep the caller's network unless the kind's encoding is shared", floor=30)
+    chk.rule("KIND", "typed conversions keep P2PKH as PublicKeyHash and P2SH as ScriptHash", floor=8)
     chk.rule("ZIP316", "ZIP 316 rejections live and not bypassable; constructor discipline", floor=20)
     chk.rule("F4", "F4Jumble: same length check, reversed involutive rounds", floor=7)
     chk.rule("G", "guards of reviewed panic sites", floor=5)
     chk.rule("PF", "no undischarged class-A panic site reachable from the decoders", floor=10)
-    w = zf.World(extract.facts_dir("all"), ["zcash_address", "f4jumble", "zcash_protocol", "zcash_encoding"])
+    w = zf.World(extract.facts_dir("all"), ["zcash_address", "f4jumble", "zcash_protocol", "zcash_encoding", "zcash_keys", "zcash_transparent"])
     rule_table(chk, w)
     rule_net(chk, w)
+    chk.analysed["kind_arms"] = rule_kind(chk, w)
     rule_zip316(chk, w)
     rule_f4(chk, w)
     g = guards(chk, w)
